@@ -86,7 +86,7 @@ def mc_configs(sims, thorough=False):
     out = []
     for sim in sims:
         for b in base:
-            c = dict(b)
+            c = c01.falsy_labels(dict(b), len(out))
             c['sim'] = sim
             c['tmin'] = [0, -6.0, 2.5][len(out) % 3]      # the start time must not matter (in particular tmin < -1)
             g = c['gamma'] if c['gamma'] > 0 else 1.0
